@@ -224,3 +224,24 @@ def program(rnd, size):
         if len(ds) > 60:
             break
     return "(program %s)" % " ".join(ds), g.forms
+
+
+def deep_programs():
+    """units whose text is indented far beyond any ordinary line: 28..120 nested blocks, classes and namespaces (the layout
+    helpers of the printer see margins of 80, 81, 82 ... columns and more)"""
+    out = []
+    for d in (26, 27, 28, 33, 40, 70, 120):
+        s = "(expr (lit int 31))"
+        for k in range(d):
+            s = "(block %s)" % s
+        out.append("(program (fun deep%d void () %s) (var after int))" % (d, s))
+    for d in (27, 30, 45):
+        s = "(var x int)"
+        for k in range(d):
+            s = "(namespace n%d %s (var y%d int))" % (k, s, k)
+        out.append("(program %s)" % s)
+        s = "(field x int)"
+        for k in range(d):
+            s = "(class c%d (bases) %s (field y%d int))" % (k, s, k)
+        out.append("(program %s)" % s)
+    return out
